@@ -225,6 +225,16 @@ def _isdigit(self):
 
 BytesLike.isdigit = _isdigit
 
+
+def _isalnum(self):
+    cps = self._ch_codepoints
+    if len(cps) == 0:
+        return False
+    return all([((48 <= b) & (b <= 57)) | ((65 <= b) & (b <= 90)) | ((97 <= b) & (b <= 122)) for b in cps])
+
+
+BytesLike.isalnum = _isalnum
+
 # int(symbolic bytes) -> CrossHair's own symbolic int(str) on the same code points.
 from crosshair.util import CrossHairValue  # noqa: E402
 
